@@ -1,6 +1,7 @@
 package server
 
 import (
+	"github.com/bio-routing/bio-rd/protocols/bgp/packet"
 	"testing"
 	"time"
 )
@@ -17,5 +18,30 @@ func TestC23OpenConfirmHoldTimeZeroNeverExpires(t *testing.T) {
 	next, reason := s.checkHoldtimer()
 	if _, ok := next.(*openConfirmState); !ok {
 		t.Fatalf("with a negotiated hold time of 0 the periodic hold timer check left OpenConfirm: next state %T (%q)", next, reason)
+	}
+}
+
+// Same clause, Established: the guard there is `keepaliveTimer != nil`, and handleOpenMessage only ever SETS the
+// keepalive timer (when the negotiated hold time is not zero) — a timer left over from an earlier session of the same
+// FSM makes a later session that negotiates hold time 0 expire at its first check.
+func TestC23EstablishedHoldTimeZeroAfterEarlierSession(t *testing.T) {
+	fsm, _, _ := c07FSM()
+	fsm.peer.holdTime = 90 * time.Second
+	// session 1 negotiated 90 s
+	s1 := newOpenSentState(fsm)
+	s1.handleOpenMessage(&packet.BGPOpen{Version: 4, ASN: 65001, HoldTime: 90, BGPIdentifier: 5})
+	if fsm.keepaliveTimer == nil {
+		t.Fatalf("setup: session 1 did not arm the keepalive timer")
+	}
+	// session 2 (same FSM object, as after a reconnect) negotiates hold time 0
+	s2 := newOpenSentState(fsm)
+	s2.handleOpenMessage(&packet.BGPOpen{Version: 4, ASN: 65001, HoldTime: 0, BGPIdentifier: 5})
+	if fsm.holdTime != 0 {
+		t.Fatalf("setup: negotiated hold time %v", fsm.holdTime)
+	}
+	fsm.lastUpdateOrKeepalive = time.Now().Add(-time.Hour)
+	next, reason := newEstablishedState(fsm).checkHoldtimer()
+	if _, ok := next.(*establishedState); !ok {
+		t.Fatalf("with a negotiated hold time of 0 the hold timer check left Established: next state %T (%q)", next, reason)
 	}
 }
